@@ -10,7 +10,8 @@ RULE = ("parser-accepted packets biased to labels and character-strings holding 
         "PartialEq; TXT attributes / long_attributes / String::try_from; CharacterString -> String; match_qtype / match_qclass. "
         "Oracle: no panic; the number of conversions reporting an error equals the number of non-UTF-8 texts; what Display writes is "
         "well-formed UTF-8 and equals an independent maximal-subpart U+FFFD rendering of the bytes (labels joined by dots for names); "
-        "SHOW inputs: every single byte, byte strings over a 27-letter alphabet of UTF-8 class boundaries (exhaustive to length 3 in the "
+        "TXT records holding every string over the attribute meta-characters k = \" \\ (to length 6; 7 thorough) and k = \" ; \\ ' space NUL "
+        "(to length 4; 5 thorough); SHOW inputs: every single byte, byte strings over a 27-letter alphabet of UTF-8 class boundaries (exhaustive to length 3 in the "
         "thorough tier), well-formed text with one byte damaged. non-trivial = accepted")
 
 
@@ -67,8 +68,28 @@ def show_cases(rng, tier):
     return out
 
 
+def grammar_cases(tier):
+    """TXT records holding every string over the attribute meta-characters up to a length: whatever shape an attribute parser
+    gives a special reading (quotes, escapes, separators, empty key or value) is in here"""
+    import itertools
+    strings = []
+    for alpha, top in ((b'k="\\', 6 if tier == "quick" else 7), (b'k=";\\\' \x00', 4 if tier == "quick" else 5)):
+        for n in range(0, top + 1):
+            for t in itertools.product(alpha, repeat=n):
+                strings.append(bytes(t))
+    strings = sorted(set(strings))
+    out = []
+    per = 60
+    for i in range(0, len(strings), per):
+        pk = {"id": 7, "opcode": 0, "rcode": 0, "flags": 0x8400, "opt": None, "qs": [], "nss": [], "adds": [],
+              "ans": [{"name": [b"x", b"local"], "class": 1, "ttl": 120, "cf": False,
+                       "rdata": ("T", "TXT", [("L", [(0, x) for x in strings[i:i + per]])])}]}
+        out.append("OBSERVE " + dns.enc_packet_ref(pk).hex())
+    return out
+
+
 def cases(rng, tier):
-    out = show_cases(rng, tier)
+    out = show_cases(rng, tier) + grammar_cases(tier)
     for _ in range(3000 if tier == "quick" else 30000):
         p = hostile.hostile_packet(rng)
         b, _ = dns.encode_marked(p, rng, rng.choice([0, 0, 3]))
